@@ -11,17 +11,26 @@ use crate::c01::{operand_def, gen_operand, KINDS};
 
 fn annot(kind: &str, matrix: bool) -> String { if matrix { format!("<[{}]>", kind) } else { format!("<{}>", kind) } }
 
+/// the source of a conversion: the variable `x` (default), a mutable variable (trailing field `form=mut`) or
+/// written in place (`form=lit`, when the operand can be spelled in place)
+fn src_form(f: &[&str], kind: &str, o: &str) -> (String, String) {
+  let form = f.last().and_then(|t| t.strip_prefix("form=")).unwrap_or("var");
+  if form == "lit" { if let Some(t) = crate::c01::operand_inline(kind, o) { return (String::new(), t); } }
+  (operand_def("x", kind, o, form == "mut"), "x".to_string())
+}
+
 pub fn source(case: &str) -> String {
   let f: Vec<&str> = case.split('\t').collect();
   match f[0] {
     "conv" => {
       let is_mat = f[3].starts_with('M');
-      format!("{}y{} := x", operand_def("x", f[1], f[3], false), annot(f[2], is_mat))
+      let (d, x) = src_form(&f, f[1], f[3]);
+      format!("{}y{} := {}", d, annot(f[2], is_mat), x)
     }
-    "reshape" => format!("{}y<[{}]:{},{}> := x", operand_def("x", f[1], f[2], false), f[5], f[3], f[4]),
-    "toset" => format!("{}y<{{{}}}> := x", operand_def("x", f[1], f[2], false), f[1]),
-    "toset2" => format!("{}y<{{{}}}> := x", operand_def("x", f[1], f[3], false), f[2]),
-    "convopt" => format!("{}y<{}?> := x", operand_def("x", f[1], f[3], false), f[2]),
+    "reshape" => { let (d, x) = src_form(&f, f[1], f[2]); format!("{}y<[{}]:{},{}> := {}", d, f[5], f[3], f[4], x) }
+    "toset" => { let (d, x) = src_form(&f, f[1], f[2]); format!("{}y<{{{}}}> := {}", d, f[1], x) }
+    "toset2" => { let (d, x) = src_form(&f, f[1], f[3]); format!("{}y<{{{}}}> := {}", d, f[2], x) }
+    "convopt" => { let (d, x) = src_form(&f, f[1], f[3]); format!("{}y<{}?> := {}", d, f[2], x) }
     "optempty" => format!("y<{}?> := _", f[1]),
     _ => "bad-proto".into(),
   }
@@ -141,6 +150,12 @@ pub fn generate(seed: u64, thorough: bool, sink: &mut Sink) -> Vec<String> {
     let els: Vec<String> = (0..r * c).map(|_| rng.pick(&pool).clone()).collect();
     cases.push(format!("toset2\t{}\t{}\tM|{}|{}|{}", k1, k2, r, c, els.join(" ")));
     sink.hit("toset:other-kind");
+  }
+  // how the source is written
+  let mut frng = Rng::new(seed ^ 0xf0f0);
+  for c in cases.iter_mut() {
+    if c.starts_with("optempty") { continue; }
+    match frng.below(4) { 0 => { c.push_str("\tform=lit"); sink.hit("source:in-place"); } 1 => { c.push_str("\tform=mut"); sink.hit("source:mutable"); } _ => { sink.hit("source:variable"); } }
   }
   sink.sample(cases[0].clone()); sink.sample(cases[cases.len() - 1].clone());
   cases
